@@ -15,7 +15,8 @@ RULE = ('cases = well-formed chart whose guards are after(d)/idle(d) probes (d i
         'with internal transitions, self-loops and re-entry, state invariants and transition '
         'postconditions probing after/idle, fragments that log `time` and move the clock during '
         'the step (tick) + history interleaving clock advances (hitting d, d-1/4, d+1/4) with '
-        'events and steps. The model keeps entered_at / fired_at per state from the returned '
+        'events and steps; in 30% of the cases one step is cut short by entry code that raises '
+        '(the states entered before it count as entered at that time). The model keeps entered_at / fired_at per state from the returned '
         'steps: every probe evaluation must equal T-entered_at>=d resp. T-fired_at>=d; '
         'MacroStep.time, the time seen by all code, the step-started meta-event and '
         'interpreter.time equal the clock sampled right before execute_once; the transitions '
@@ -63,7 +64,13 @@ def strategy(tier):
         ops.append(['step'])
         # shadow: a second interpreter over the same Statechart object is stepped in between, on
         # its own clock; it must not influence the first one
-        return {'spec': spec, 'ops': ops, 'shadow': draw(st.booleans())}
+        # faults: in the given step the k-th entry code executed raises at its end (the states
+        # entered before it in that micro step are active and were entered at that time)
+        faults = []
+        steps = [i for i, o in enumerate(ops) if o[0] == 'step'][1:]
+        if steps and draw(st.floats(0, 1)) < 0.3:
+            faults = [[draw(st.sampled_from(steps)), draw(st.sampled_from([1, 2, 2, 3]))]]
+        return {'spec': spec, 'ops': ops, 'shadow': draw(st.booleans()), 'faults': faults}
     return cases()
 
 
@@ -91,9 +98,19 @@ def render(spec):
     return spec
 
 
+BOOM = ("\nfv['n'] = fv.get('n', 0) + 1\nif fv.get('eboom') == fv['n']:\n"
+        "    raise ValueError('boom')")
+
+
 def oracle(case):
     from ..cli import sha
     spec = render(case['spec'])
+    faults = {int(i): k for i, k in case.get('faults') or []}
+    if faults:
+        for s_ in spec['states']:
+            if s_['kind'] not in ('shallow', 'deep'):
+                s_['on_entry'] = (s_.get('on_entry') or 'pass') + BOOM
+    after_fault = False
     tree = Tree(spec)
     by_tid = {t['id']: t for t in spec['transitions']}
     by_sid = {s['sid']: s for s in spec['states']}
@@ -155,10 +172,44 @@ def oracle(case):
                     continue
                 base = entered_at if g[0] == 'after' else fired_at
                 gv[t['id']] = (T - base[t['source']]) >= g[1]
+            d.ctx['fv'].clear()
+            if i in faults:
+                d.ctx['fv']['eboom'] = faults[i]
             rec = d.step(None)
+            d.ctx['fv'].clear()
             labels['steps'] = labels.get('steps', 0) + 1
+            if i in faults and rec['exc'] == 'CodeEvaluationError' \
+                    and 'boom' in str(rec['exc_obj']):
+                # the step was cut short inside an entry: what was executed (log) tells which
+                # states were entered / fired at T; queues are taken over from the interpreter
+                labels['fault steps (entry code raised)'] = labels.get(
+                    'fault steps (entry code raised)', 0) + 1
+                after_fault = True
+                if d.interp.time != T or any(x[3] != T for x in rec['log']):
+                    bad('interpreter-time-not-sampled-at-call', i, time=d.interp.time,
+                        clock_at_call=T)
+                    break
+                last_T = T
+                ens = [x for x in rec['log'] if x[0] == 'en']
+                for x in rec['log']:
+                    if x[0] == 'tr':
+                        fired_at[by_tid[x[1]]['source']] = T
+                    elif x[0] == 'en' and x is not ens[-1]:
+                        nm = by_sid[x[1]]['name']
+                        if nm in entered_at:
+                            reentered.add(nm)
+                        entered_at[nm] = T
+                        fired_at[nm] = T
+                from ..core import resync
+                resync(d, {}, {})
+                continue
             if rec['exc'] and rec['exc'] not in ('NonDeterminismError',
                                                  'ConflictingTransitionsError'):
+                if after_fault:
+                    # the configuration a cut-short step leaves behind may be one the
+                    # interpreter cannot continue from: nothing is claimed about that
+                    labels['runs abandoned after a fault step'] = 1
+                    break
                 bad('unexpected-exception', i, exc=rec['exc'], msg=str(rec['exc_obj'])[:300])
                 break
             # frozen time
